@@ -202,6 +202,13 @@ def gen_module(rng, gen):
         return rng.choice([['imp_refl', T()], ['dneg_intro', T()], ['bot_elim', T()], ['prop1_inst', T(1), T(1)], ['top_intro']])
     proofs = []
     seen = set()
+    if rng.random() < 0.4:
+        # a lemma re-used through the static ProofExp.instantiate, with an EMPTY substitution (it must still be one
+        # instruction and one step) or, rarely, a non-empty one (D10: the interpreters reject it; counted as not serialisable)
+        base = rng.choice([['imp_refl', T(1)], ['dneg_intro', T(1)], ['top_intro'], ['prop1_inst', T(1), T(1)]])
+        delta = {} if rng.random() < 0.85 else {'0': T(1)}
+        proofs.append(['sinst', base, delta])
+        seen.add(json.dumps(base))
     for _ in range(rng.randrange(1, 4)):
         s = spec(2)
         key = json.dumps(s)
@@ -265,7 +272,8 @@ def run(tier, seed):
             cfg[fl] = True
 
     # generated notations, registered under ids after the shipped ones
-    gen = G.Gen(rng, notations=[nt for nt in sides.shipped if nt.family is None and nt.chunks is not None])
+    gen = G.Gen(rng, notations=[nt for nt in sides.shipped if nt.family is None and nt.chunks is not None],
+                syms=(1, 2, 3) + tuple(PS.BRACE_SYMS))
     generated = []
     for j in range(12):
         nt = gen.random_notation(2, f'g{j}')
@@ -323,34 +331,60 @@ def run(tier, seed):
                         dict(notation=n['expr'], format_str=n['format_str'], missing=missing,
                              args=[PC.show(a) for a in a1], args2=[PC.show(a) for a in a2]))
 
-    # 2b. dynamic: different renderings at a position the definition depends on => different text
-    dreqs, dmeta = [], []
-    rounds = 3 if quick else 40
+    # 2b. dynamic: two applications of one notation that denote different patterns and whose arguments are printed
+    #     differently must be printed differently.  Argument pool: variables, symbols incl. brace-named ones, and
+    #     applications of the notation ITSELF (left/right nesting).  One differing position = the scope of
+    #     C19_hole_distinguishes ('format-drops-argument'); several = 'ambiguous-rendering'.
+    import itertools
+    atoms = [('e', 10), ('e', 11), ('e', 12), ('y', 201), ('y', 200), ('y', 1)]
+    dreqs, djobs = [], []
     for nt in allnots:
-        mvs = sorted(G.ref_metavars(G.ref_expand(nt.definition, drop)))
-        for _ in range(rounds):
-            for i in mvs:
-                if i >= nt.arity:
-                    continue
-                base = [('e', 10 + j) for j in range(nt.arity)] if rng.random() < 0.4 else \
-                       [gen.term(rng.choice([0, 1, 2]), notation=0.2) for _ in range(nt.arity)]
-                alt = list(base)
-                alt[i] = ('e', 99) if rng.random() < 0.5 else gen.term(rng.choice([0, 1]))
-                if alt[i] == base[i]:
-                    continue
-                ids = [nt.nid]
-                dreqs += [pr_req(False, ids, nt(*base)), pr_req(False, ids, nt(*alt)),
-                          pr_req(False, ids, base[i]), pr_req(False, ids, alt[i])]
-                dmeta.append((nt, i, base, alt))
+        if nt.arity < 1:
+            continue
+        nested = [nt(*[atoms[(s0 + j) % 3] for j in range(nt.arity)]) for s0 in (0, 1)]
+        pool = atoms + nested
+        if len(pool) ** nt.arity <= 160:
+            tuples = list(itertools.product(range(len(pool)), repeat=nt.arity))
+        else:
+            tuples = {tuple(rng.randrange(len(pool)) for _ in range(nt.arity)) for _ in range(150 if quick else 600)}
+            for pos in range(nt.arity):           # the self-nesting pairs are always there
+                for k in (6, 7):
+                    for base in (0, 1, 2):
+                        t = [base] * nt.arity
+                        t[pos] = k
+                        tuples.add(tuple(t))
+            tuples = sorted(tuples)
+        ids = [nt.nid]
+        start = len(dreqs)
+        dreqs += [pr_req(False, ids, a) for a in pool] + [pr_req(False, ids, nt(*[pool[k] for k in t])) for t in tuples]
+        djobs.append((nt, pool, tuples, start))
     dres = sides.impl(dreqs)
-    for k, (nt, i, base, alt) in enumerate(dmeta):
-        s1, s2, r1, r2 = dres[4 * k: 4 * k + 4]
-        R.case(('distinguish', nt.label, i, PC.show(base[i]), PC.show(alt[i])), True, 'distinguish')
-        if r1 != r2 and s1 == s2:
-            R.violation(f'C19:format-drops-argument:{nt.label}',
-                        f'notation {nt.label}: argument {i} rendered differently but the applications print the same',
-                        dict(notation=nt.expr or nt.label, position=i, args=[PC.show(a) for a in base],
-                             args2=[PC.show(a) for a in alt], rendering=s1))
+    npairs = 0
+    for nt, pool, tuples, start in djobs:
+        rend = dres[start:start + len(pool)]
+        outs = dres[start + len(pool):start + len(pool) + len(tuples)]
+        groups = {}
+        for t, o in zip(tuples, outs):
+            if o.startswith('S'):
+                groups.setdefault(o, []).append(t)
+        R.case(('distinguish', nt.label, nt.arity, len(tuples)), True, 'distinguish')
+        for o, ts in groups.items():
+            if len(ts) < 2:
+                continue
+            exp = {t: G.ref_expand(nt(*[pool[k] for k in t]), drop) for t in ts}
+            for t1, t2 in itertools.combinations(ts, 2):
+                npairs += 1
+                diff = [p for p in range(nt.arity) if rend[t1[p]] != rend[t2[p]]]
+                if not diff or exp[t1] == exp[t2]:
+                    continue        # arguments printed alike, or the same pattern (an ignored argument differs)
+                kind = 'format-drops-argument' if len(diff) == 1 else 'ambiguous-rendering'
+                text = ''.join(chr(int(c)) for c in o.split()[1:])
+                R.violation(f'C19:{kind}:{nt.label}',
+                            f'notation {nt.label}: two applications that denote different patterns, with arguments rendered differently '
+                            f'at position(s) {diff}, are both printed {text!r}',
+                            dict(notation=nt.expr or nt.label, positions=diff, args=[PC.show(pool[k]) for k in t1],
+                                 args2=[PC.show(pool[k]) for k in t2], rendering=text))
+    dmeta = [None] * npairs
 
     # 3. pretty files vs binary files, shipped + generated modules, both optimize settings (in batches: the
     #    pretty files with their stack dumps are large)
@@ -389,7 +423,9 @@ def run(tier, seed):
             R.case(line, True, 'module:' + ('shipped' if line.startswith('SHIPPED') else 'generated'))
             if problems:
                 where, what = problems[0]
-                R.violation('C19:lines-vs-opcodes:' + what.split(' ')[0],
+                kind = ('step-count' if ' pretty steps vs ' in what else 'symbol-numbering' if what.startswith('symbol ') else
+                        'unreadable' if what.startswith('unreadable') else 'step-mismatch')
+                R.violation('C19:lines-vs-opcodes:' + kind,
                             f'{line[:60]}: {where}: {what}', dict(module=line, where=where, what=what, all=problems[:10]))
         ereqs = [('EMIT', ' '.join([str(len(calls))] + [t for c in calls for t in c])) for _, _, calls, _, _ in emit_jobs]
         eans = sides.model(ereqs, cfg)
